@@ -6,7 +6,8 @@ CFG = {
     "technique": "Lean 4 proof (fold/append induction for the writers, with flush() in the op alphabet and writers as call transducers so that "
                  "compositions compose; invariant + measure over a two-pipe transition system) + differential correspondence (all chunkings x flush "
                  "placements; scripted children under a watchdog, also into mapped/line_mapped/tee targets through both entry points) + translator "
-                 "facts (thread shape, copier body = std::io::copy)",
+                 "facts (thread shape, copier body = std::io::copy, no wait call reachable from spawn_and_write_streams) + children that outlive their "
+                 "streams (return point observed as try_wait() at return)",
     "level_text": "Theorems (all inputs, no bound). A: chunk_independent (same concatenation => same state and output, from any state), "
                   "output_spec (output = f of each marker-terminated segment, then f of the remainder iff non-empty, for every marker/f/chunking), "
                   "tee_full_input (+ _short_writes), mapped_output_short_writes; with flush() as an operation: "
@@ -17,7 +18,10 @@ CFG = {
                   "stuck, any capacity > 0, any script), termination (measure decreases on every step), delivery (per stream: delivered ++ in-pipe ++ "
                   "to-be-written = the script's bytes; at return Output and writer hold them), sequential_variant_deadlocks (the statement "
                   "discriminates), and the source-shape obligations copier_threads_spawned_before_joined, copiers_are_plain_io_copy over the "
-                  "regenerated Gen.Sites.",
+                  "regenerated Gen.Sites. Return point: spawn_returns_at_stream_close (every child history: once both streams are closed "
+                  "spawn_and_write_streams has returned, before the exit if the exit comes later; output_and_write_streams has not), "
+                  "spawn_does_not_return_before_close, waiting_variant_returns_only_after_exit (discriminates), "
+                  "spawn_does_not_wait_for_exit (Gen.Sites.spawnWaitCalls = []).",
     "level_note": "PARTIAL for the streaming half: the model has a script-driven child, two bounded byte queues and two copier steps; real OS pipes, "
                   "the scheduler, thread spawning, writer errors and grandchildren holding the pipe are not exhibited by it. Deadlock freedom of the real "
                   "process is only sampled: scripted children (0..4 pipe buffers of 64 KiB per stream, one stream first / alternating / simultaneous / "
@@ -26,7 +30,14 @@ CFG = {
                   "not in model B: it is covered by the writer theorems (any chunking, any flushes => same content) and sampled end to end by the M "
                   "cases (lines arriving in pieces with 3-15 ms delays, lines longer than the 8 KiB copy buffer / the 64 KiB pipe, into line_mapped / "
                   "mapped / tee(line_mapped, Vec) targets, through output_and_write_streams and spawn_and_write_streams); a copier that is no longer a "
-                  "plain std::io::copy call is reported by the translator as a broken tie. The writer half (A) is a full proof on the model of write.rs, "
+                  "plain std::io::copy call is reported by the translator as a broken tie. 'Returns once both streams close': the model has the "
+                  "child's closes and exit as events and the call as the blocking statements it passes (join copier, join copier, [wait]); that the real "
+                  "call returns at the close and not at the exit is sampled by the L cases (child closes fd 1 and 2 - together, or one and >= 20 ms later "
+                  "the other with writes in between - and stays alive 1500 ms; judged: try_wait() == None right after spawn_and_write_streams returned; "
+                  "also recorded: returned > 500 ms before the earliest exit). The oracle allows the parent 1000 ms between the second EOF and the return; "
+                  "a machine stalled for longer than that would flip the flag (a failing case is re-run twice by ./check before it stands). output_and_write_streams returns the exit status, "
+                  "i.e. after the exit, as documented: not judged. A child that never closes its streams before exiting, or lives < 1000 ms after, gives "
+                  "nothing to judge (run=na). Grandchildren holding a pipe end open are not scripted. The writer half (A) is a full proof on the model of write.rs, "
                   "which is the code after the minimal D5 fix (remainder flushed on drop/unwrap only when non-empty); flush() = forward to the inner "
                   "writer(s), pending buffer kept. Trusted: Lean kernel; Spec/Streaming.lean (my reading of the property: a flush is not a write, so "
                   "like the split it must not show in the output); translator (syn) for Gen.Sites; harness and driver glue.",
@@ -46,14 +57,27 @@ CFG = {
             "spawn=spawn_and_write_streams+wait): a line in two pieces (5/15 ms apart) on both streams x 6 target pairs x 2 entries; a line in three pieces with its "
             "newline alone x 6 target pairs x seq/par; one line of 8193 / 20000 / 64Ki+1 / 140000 bytes (thorough: 8 sizes) written at once x 4 target pairs; both "
             "streams 70000-byte lines simultaneously; 20000-70000 bytes of 251-byte lines in one write; empty / newline-only output; 30/300 sampled scripts "
-            "(pieces of 0..30000 bytes, newlines, 3 ms delays, random targets and entry). non-trivial: A = the input holds a marker and (it is split into >= 2 "
+            "(pieces of 0..30000 bytes, newlines, 3 ms delays, random targets and entry). L (children outliving their streams; items xo/xe/xb = close "
+            "stdout/stderr/both, z = stay alive; run together on one thread each, CNBV_C19_NO_LINGER=1 leaves them out): banner on both streams, close both, alive D ms; "
+            "close stdout, write stderr 100 ms later, close stderr 20 ms later, alive D ms, and the mirror image, D in {300, 1500} (thorough: + 3000); "
+            "the same through output_and_write_streams (2 cases, not judged); 370000 bytes over both streams then close both; silent child; close after "
+            "200+100 ms; lifetime in two pauses of 800 ms; closes 50 ms apart without writes; two children whose streams stay open until exit; thorough: "
+            "24 sampled (0-3 writes of 0..70000 bytes, close both / one then the other with a write in between, alive 1500/2000 ms, random targets). "
+            "non-trivial: A = the input holds a marker and (it is split into >= 2 "
             "chunks with a chunk boundary inside a segment, or a flush arrives while a partial segment is pending); B = both streams non-empty or one stream "
-            "larger than a pipe buffer; M = a mapped target whose stream has a line written in several pieces or longer than 8 KiB; distinct = distinct input line",
+            "larger than a pipe buffer; M = a mapped target whose stream has a line written in several pieces or longer than 8 KiB; L = spawn entry and the child stays alive "
+            ">= 1000 ms after it closed both streams (the return clause is judged); distinct = distinct input line",
     "exhaustive": True,
     "search_rounds": 1,
     "search_tier": "quick",
     "trusted_base": ["Spec/Streaming.lean is my reading of the property (split of the whole input at markers; per-stream bytes of a script; "
-                     "writtenBytes: the input of a call sequence is the concatenation of its writes, a flush contributes nothing and must not show in the output)",
+                     "writtenBytes: the input of a call sequence is the concatenation of its writes, a flush contributes nothing and must not show in the output; "
+                     "'returns once both streams close' = mustBeRunningAtReturn: a child alive >= 1000 ms after closing both streams is still running when the "
+                     "call that hands it back returns - the 1000 ms allowance is the oracle's, not the property's)",
+                     "Gen.Sites.spawnWaitCalls: wait / try_wait / wait_with_output calls (method or path) in spawn_and_write_streams and the functions of command.rs "
+                     "it mentions, transitively (syn); a wait hidden in a macro body, in another file or behind a trait object is not seen there - the L cases observe it",
+                     "the scripted child closes fd 1 / fd 2 with close(2) and sleeps; the harness reads try_wait() immediately after the call returns and "
+                     "masks the flag (run=na) when the script does not guarantee 1000 ms of life after both closes",
                      "Gen.Sites.copierEvents / copiersInOneScope / copierBodies regenerated from write_child_process_output (syn); a copier closure that is "
                      "not exactly std::io::copy(reader, writer) is reported as TIE-BROKEN, not interpreted",
                      "Model B abstracts OS pipes to bounded byte queues and threads to interleaved steps (partial claim); the chunking / extra calls of the real "
